@@ -266,12 +266,30 @@ class Sign(Domain):
         return None
 
     def decide_test(self, test, it):
-        t = src(test)
-        if t in self.assume_true:
-            return True
-        if t in self.assume_false:
-            return False
-        return None
+        from ..common import inline_locals
+
+        def look(e):
+            t = src(e)
+            if t in self.assume_true:
+                return True
+            # UtU[i, i] for any index name i: the diagonal of the Gram matrix (assumed non-zero)
+            if isinstance(e, ast.Subscript) and isinstance(e.value, ast.Name) and e.value.id == "UtU" and isinstance(e.slice, ast.Tuple) and len(e.slice.elts) == 2 and all(isinstance(x, ast.Name) for x in e.slice.elts) and e.slice.elts[0].id == e.slice.elts[1].id and "UtU[k, k]" in self.assume_true:
+                return True
+            if t in self.assume_false:
+                return False
+            if isinstance(e, ast.UnaryOp) and isinstance(e.op, ast.Not):
+                r = look(e.operand)
+                return None if r is None else (not r)
+            return None
+
+        r = look(test)
+        if r is None:
+            f = getattr(it, "cur_function", None)
+            if f is not None:
+                # the assumption is about the value, not about how the test is spelled:
+                # `d = UtU[k, k]; if not d: ... continue` is the same test as `if UtU[k, k]:`
+                r = look(inline_locals(f.node, test))
+        return r
 
     def join_values(self, a, b, it):
         # (decomposition, errors) joined with decomposition: the decomposition is what matters
